@@ -1,7 +1,275 @@
-//! rewriting jobs (privacy-unit tracking, differential privacy, rule extraction)
-use crate::codec::R;
-use serde_json::Value as J;
+//! rewriting jobs: rule extraction (engine T), privacy-unit tracking and DP rewriting (engine S)
+use crate::codec::*;
+use crate::guarded;
+use crate::rel::{parse_relation, relation_json, render, tables_from};
+use qrlew::differential_privacy::dp_parameters::DpParameters;
+use qrlew::expr::Identifier;
+use qrlew::hierarchy::Hierarchy;
+use qrlew::privacy_unit_tracking::{privacy_unit::PrivacyUnit, Strategy};
+use qrlew::relation::{Relation, Variant as _};
+use qrlew::rewriting::rewriting_rule::{
+    Parameters, Rewriter, RewritingRulesEliminator, RewritingRulesSelector, RewritingRulesSetter, Score,
+};
+use qrlew::rewriting::{RelationWithRewritingRule, RelationWithRewritingRules, RewritingRule};
+use qrlew::synthetic_data::SyntheticData;
+use qrlew::visitor::Acceptor;
+use serde_json::{json, Value as J};
+use std::sync::Arc;
 
-pub fn run(_op: &str, _job: &J) -> Option<R<J>> {
-    None
+pub fn privacy_unit_from(j: &J) -> R<PrivacyUnit> {
+    // [{"table": "t", "path": [["fk","ref_table","ref_id"],...], "field": "id", "weight": null|"w"}], optional "hash": bool
+    let items = j["tables"].as_array().ok_or("privacy_unit.tables")?;
+    let mut owned: Vec<(String, Vec<(String, String, String)>, String, Option<String>)> = vec![];
+    for it in items {
+        let path: Vec<(String, String, String)> = it["path"]
+            .as_array()
+            .map(|p| {
+                p.iter()
+                    .map(|s| (s[0].as_str().unwrap_or("").to_string(), s[1].as_str().unwrap_or("").to_string(), s[2].as_str().unwrap_or("").to_string()))
+                    .collect()
+            })
+            .unwrap_or_default();
+        owned.push((
+            it["table"].as_str().ok_or("table")?.to_string(),
+            path,
+            it["field"].as_str().ok_or("field")?.to_string(),
+            it["weight"].as_str().map(|s| s.to_string()),
+        ));
+    }
+    let hash = j["hash"].as_bool();
+    let any_weight = owned.iter().any(|o| o.3.is_some());
+    if any_weight {
+        let v: Vec<(&str, Vec<(&str, &str, &str)>, &str, &str)> = owned
+            .iter()
+            .map(|(t, p, f, w)| (t.as_str(), p.iter().map(|(a, b, c)| (a.as_str(), b.as_str(), c.as_str())).collect(), f.as_str(), w.as_deref().unwrap_or("")))
+            .collect();
+        Ok(match hash {
+            Some(h) => PrivacyUnit::from((v, h)),
+            None => PrivacyUnit::from(v),
+        })
+    } else {
+        let v: Vec<(&str, Vec<(&str, &str, &str)>, &str)> =
+            owned.iter().map(|(t, p, f, _)| (t.as_str(), p.iter().map(|(a, b, c)| (a.as_str(), b.as_str(), c.as_str())).collect(), f.as_str())).collect();
+        Ok(match hash {
+            Some(h) => PrivacyUnit::from((v, h)),
+            None => PrivacyUnit::from(v),
+        })
+    }
+}
+
+pub fn dp_parameters_from(j: &J) -> R<DpParameters> {
+    let g = |k: &str, d: f64| j[k].as_f64().unwrap_or(d);
+    Ok(DpParameters::new(
+        g("epsilon", 1.0),
+        g("delta", 1e-3),
+        g("tau_thresholding_share", 0.5),
+        g("privacy_unit_max_multiplicity", 100.0),
+        g("privacy_unit_max_multiplicity_share", 0.1),
+        j["max_privacy_unit_groups"].as_u64().unwrap_or(5),
+    ))
+}
+
+pub fn synthetic_from(j: &J, tables: &Hierarchy<Arc<Relation>>) -> Option<SyntheticData> {
+    if !j.as_bool().unwrap_or(false) {
+        return None;
+    }
+    let h: Hierarchy<Identifier> = tables
+        .iter()
+        .map(|(p, _)| {
+            let mut sp = p.clone();
+            let last = sp.pop().unwrap_or_default();
+            sp.push(format!("sd_{last}"));
+            (p.clone(), Identifier::from(sp))
+        })
+        .collect();
+    Some(SyntheticData::new(h))
+}
+
+fn param_kind(p: &Parameters) -> &'static str {
+    match p {
+        Parameters::None => "None",
+        Parameters::SyntheticData(_) => "SyntheticData",
+        Parameters::DifferentialPrivacy(_) => "DifferentialPrivacy",
+        Parameters::PrivacyUnit(_) => "PrivacyUnit",
+    }
+}
+
+fn rule_json(r: &RewritingRule) -> J {
+    json!({"inputs": r.inputs().iter().map(|p| format!("{:?}", p)).collect::<Vec<_>>(), "output": format!("{:?}", r.output()), "param": param_kind(r.parameters())})
+}
+
+fn kind_of(r: &Relation) -> &'static str {
+    match r {
+        Relation::Table(_) => "Table",
+        Relation::Map(_) => "Map",
+        Relation::Reduce(_) => "Reduce",
+        Relation::Join(_) => "Join",
+        Relation::Set(_) => "Set",
+        Relation::Values(_) => "Values",
+    }
+}
+
+/// tree of candidate rule lists
+fn rules_tree(r: &RelationWithRewritingRules) -> J {
+    json!({
+        "kind": kind_of(r.relation()), "name": r.relation().name(),
+        "rules": r.attributes().iter().map(rule_json).collect::<Vec<_>>(),
+        "inputs": r.inputs().iter().map(|i| rules_tree(i)).collect::<Vec<_>>(),
+    })
+}
+
+/// tree of chosen rules (one derivation)
+fn derivation_tree(r: &RelationWithRewritingRule) -> J {
+    json!({
+        "kind": kind_of(r.relation()), "name": r.relation().name(),
+        "rule": rule_json(r.attributes()),
+        "inputs": r.inputs().iter().map(|i| derivation_tree(i)).collect::<Vec<_>>(),
+    })
+}
+
+/// name-independent structural signature of a relation
+pub fn signature(r: &Relation) -> String {
+    let inner: Vec<String> = r.inputs().into_iter().map(signature).collect();
+    let extra = match r {
+        Relation::Table(t) => format!(":{}", t.path().iter().cloned().collect::<Vec<_>>().join(".")),
+        Relation::Map(m) => format!(":{}{}", m.projection().len(), if m.filter().is_some() { "f" } else { "" }),
+        Relation::Reduce(m) => format!(":{}g{}", m.aggregate().len(), m.group_by().len()),
+        Relation::Join(j) => format!(":{}", j.operator().to_string().split(' ').next().unwrap_or("")),
+        _ => String::new(),
+    };
+    format!("{}{}({})", kind_of(r), extra, inner.join(","))
+}
+
+pub fn run(op: &str, job: &J) -> Option<R<J>> {
+    Some((|| -> R<J> {
+        Ok(match op {
+            // ------------------------------------------------------------ engine T: everything about one query's rule search
+            "rules" => {
+                let tables = tables_from(&job["tables"])?;
+                let pu = privacy_unit_from(&job["privacy_unit"])?;
+                let dp = dp_parameters_from(&job["dp"])?;
+                let sd = synthetic_from(&job["synthetic"], &tables);
+                let sql_text = job["sql"].as_str().ok_or("sql")?.to_string();
+                let relation = match parse_relation(&tables, &sql_text) {
+                    Ok(r) => r,
+                    Err(e) => return Ok(json!({"err": e})),
+                };
+                let mut out = json!({"relation_sig": signature(&relation)});
+                for (sname, strategy) in [("Soft", Strategy::Soft), ("Hard", Strategy::Hard)] {
+                    let res = guarded(|| {
+                        let with_rules = relation.set_rewriting_rules(RewritingRulesSetter::new(&tables, sd.clone(), pu.clone(), dp.clone(), strategy));
+                        let set_tree = rules_tree(&with_rules);
+                        let eliminated = with_rules.map_rewriting_rules(RewritingRulesEliminator);
+                        let elim_tree = rules_tree(&eliminated);
+                        let selected = eliminated.select_rewriting_rules(RewritingRulesSelector);
+                        let max_rewrites = job["max_rewrites"].as_u64().unwrap_or(64) as usize;
+                        let derivations: Vec<J> = selected
+                            .iter()
+                            .enumerate()
+                            .map(|(k, rwrr)| {
+                                let score = rwrr.accept(Score);
+                                let mut d = json!({"tree": derivation_tree(rwrr), "output": format!("{:?}", rwrr.attributes().output()), "score": score});
+                                if k < max_rewrites {
+                                    let rew = guarded(|| {
+                                        let r = rwrr.rewrite(Rewriter::new(&tables));
+                                        json!({"sig": signature(r.relation()), "dp_event": r.dp_event().to_string()})
+                                    });
+                                    d["rewrite"] = rew;
+                                }
+                                d
+                            })
+                            .collect();
+                        json!({"set": set_tree, "eliminated": elim_tree, "derivations": derivations})
+                    });
+                    out[sname] = res;
+                }
+                // the real entry points
+                out["entry_dp"] = guarded(|| match relation.rewrite_with_differential_privacy(&tables, sd.clone(), pu.clone(), dp.clone()) {
+                    Ok(r) => json!({"ok": {"sig": signature(r.relation()), "dp_event": r.dp_event().to_string()}}),
+                    Err(e) => json!({"err": e.to_string()}),
+                });
+                for (sname, strategy) in [("Soft", Strategy::Soft), ("Hard", Strategy::Hard)] {
+                    out[format!("entry_pup_{sname}")] =
+                        guarded(|| match relation.rewrite_as_privacy_unit_preserving(&tables, sd.clone(), pu.clone(), dp.clone(), Some(strategy)) {
+                            Ok(r) => json!({"ok": {"sig": signature(r.relation()), "dp_event": r.dp_event().to_string()}}),
+                            Err(e) => json!({"err": e.to_string()}),
+                        });
+                }
+                json!({"ok": out})
+            }
+            // ------------------------------------------------------------ engine S: rewritten relations as IR
+            "rewrite" => {
+                let tables = tables_from(&job["tables"])?;
+                let pu = privacy_unit_from(&job["privacy_unit"])?;
+                let dp = dp_parameters_from(&job["dp"])?;
+                let sd = synthetic_from(&job["synthetic"], &tables);
+                let sql_text = job["sql"].as_str().ok_or("sql")?.to_string();
+                let mode = job["mode"].as_str().unwrap_or("dp");
+                let relation = match parse_relation(&tables, &sql_text) {
+                    Ok(r) => r,
+                    Err(e) => return Ok(json!({"err": e})),
+                };
+                guarded(|| {
+                    let res = match mode {
+                        "dp" => relation.rewrite_with_differential_privacy(&tables, sd.clone(), pu.clone(), dp.clone()),
+                        "pup_soft" => relation.rewrite_as_privacy_unit_preserving(&tables, sd.clone(), pu.clone(), dp.clone(), Some(Strategy::Soft)),
+                        _ => relation.rewrite_as_privacy_unit_preserving(&tables, sd.clone(), pu.clone(), dp.clone(), Some(Strategy::Hard)),
+                    };
+                    match res {
+                        Ok(r) => {
+                            let mut out = json!({"ok": {"original": relation_json(&relation), "rewritten": relation_json(r.relation()), "dp_event": dp_event_json(r.dp_event()), "dp_event_s": r.dp_event().to_string()}});
+                            if job["render"].as_bool().unwrap_or(false) {
+                                out["sql"] = render(r.relation());
+                                out["sql_original"] = render(&relation);
+                            }
+                            out
+                        }
+                        Err(e) => json!({"err": e.to_string(), "original": relation_json(&relation)}),
+                    }
+                })
+            }
+            "score_table" => {
+                // the weight the real Score visitor gives to each output property, and an additivity probe
+                let tables = tables_from(&job["tables"])?;
+                let (_, any) = tables.iter().next().ok_or("need one table")?;
+                let leaf: &Relation = any;
+                use qrlew::rewriting::Property;
+                let props = [Property::Private, Property::SyntheticData, Property::PrivacyUnitPreserving, Property::DifferentiallyPrivate, Property::Published, Property::Public];
+                guarded(|| {
+                    let mut w = serde_json::Map::new();
+                    for p in props {
+                        let node = RelationWithRewritingRule::new(leaf, RewritingRule::new(vec![], p, Parameters::None), vec![]);
+                        w.insert(format!("{:?}", p), json!(node.accept(Score)));
+                    }
+                    // additivity: parent(PUP) over child(Public) and child(DP)
+                    let c1 = Arc::new(RelationWithRewritingRule::new(leaf, RewritingRule::new(vec![], Property::Public, Parameters::None), vec![]));
+                    let c2 = Arc::new(RelationWithRewritingRule::new(leaf, RewritingRule::new(vec![], Property::DifferentiallyPrivate, Parameters::None), vec![]));
+                    let parent = RelationWithRewritingRule::new(leaf, RewritingRule::new(vec![Property::Public, Property::DifferentiallyPrivate], Property::PrivacyUnitPreserving, Parameters::None), vec![c1, c2]);
+                    json!({"ok": {"weights": w, "additivity_probe": parent.accept(Score)}})
+                })
+            }
+            "dp_kernels" => {
+                // concrete evaluation of the budget kernels (translator validation for C03/C04)
+                use qrlew::differential_privacy::dp_event::{gaussian_noise, gaussian_noise_multiplier, gaussian_tau};
+                let e = job["epsilon"].as_f64().ok_or("epsilon")?;
+                let d = job["delta"].as_f64().ok_or("delta")?;
+                let s = job["sensitivity"].as_f64().unwrap_or(1.0);
+                let g = job["groups"].as_f64().unwrap_or(1.0);
+                guarded(|| json!({"ok": {"gaussian_noise": gaussian_noise(e, d, s), "gaussian_noise_multiplier": gaussian_noise_multiplier(e, d), "gaussian_tau": gaussian_tau(e, d, g)}}))
+            }
+            _ => return Err(format!("unknown op {op}")),
+        })
+    })())
+}
+
+pub fn dp_event_json(e: &qrlew::differential_privacy::dp_event::DpEvent) -> J {
+    use qrlew::differential_privacy::dp_event::DpEvent;
+    match e {
+        DpEvent::NoOp => json!({"k": "NoOp"}),
+        DpEvent::Gaussian { noise_multiplier } => json!({"k": "Gaussian", "noise_multiplier": noise_multiplier}),
+        DpEvent::Laplace { noise_multiplier } => json!({"k": "Laplace", "noise_multiplier": noise_multiplier}),
+        DpEvent::EpsilonDelta { epsilon, delta } => json!({"k": "EpsilonDelta", "epsilon": epsilon, "delta": delta}),
+        DpEvent::Composed { events } => json!({"k": "Composed", "events": events.iter().map(dp_event_json).collect::<Vec<_>>()}),
+        _ => json!({"k": "Other"}),
+    }
 }
